@@ -125,6 +125,10 @@ func execute(rc *kit.RunCtx, w *world, specs []*txSpec, level int, scheduled boo
 	return executeWith(rc, w, specs, level, scheduled, name, -1, 0)
 }
 
+// cancelNext: the next scheduled execution is cancelled at this step (-1 = no). Set by Run for the extra
+// "K" execution of C10.
+var cancelNext = -1
+
 func executeWith(rc *kit.RunCtx, w *world, specs []*txSpec, level int, scheduled bool, name string, victim, grace int) *execResult {
 	res := &execResult{name: name, level: level}
 	resetRegistry()
@@ -137,6 +141,9 @@ func executeWith(rc *kit.RunCtx, w *world, specs []*txSpec, level int, scheduled
 	x := newExecCtx(rc, name, scheduled, level, len(specs))
 	x.w = w
 	x.victim, x.grace = victim, grace
+	if scheduled {
+		x.cancelAt, cancelNext = cancelNext, -1
+	}
 	res.x = x
 	tr := n.newTransition(buildTxs(w, x, specs, n.height+1), x)
 	if scheduled {
@@ -221,6 +228,11 @@ func (e engine) Run(rc *kit.RunCtx) {
 		victim = -1
 	}
 
+	validateOnImport = t.Permille("validate.on.import", 150)
+	rc.Config["validate_on_import"] = validateOnImport
+	if validateOnImport {
+		rc.Probe("executed_as_importer_with_validation")
+	}
 	rc.Config["level"] = level
 	rc.Config["ntx"] = len(specs)
 	rc.Config["step_price"] = cfg.steps.price
@@ -260,6 +272,29 @@ func (e engine) Run(rc *kit.RunCtx) {
 		checkC09(rc, w, specs, conc, seq)
 	case "C10":
 		checkC10(rc, w, specs, conc, seq)
+		if !rc.Failed() && !conc.out.deadlock && t.Permille("cancel.run", 300) {
+			// the same block once more, and this time the execution is given up at a tape-chosen scheduling
+			// step (what a block manager does when consensus moves on). Either the canceller refuses (the
+			// execution had finished: the usual outcome rules apply) or it accepts, and then no "executed
+			// successfully" may follow unless every transaction has its result; nothing may crash.
+			cancelNext = t.Choose("cancel.at", 3+2*len(specs))
+			k := executeWith(rc, w, specs, level, true, "K", -1, 0)
+			rc.Event("K outcome cancelAccepted=%v finished=%v err=%v receipts=%d", k.x.cancelOK, k.out.finished, errCode(k.out), len(k.receipts))
+			switch {
+			case k.x.cancelOK && k.out.finished && k.out.execErr == nil && k.out.validateErr == nil:
+				rc.Probe("callback_after_accepted_cancel")
+				if !wellFormed(rc, specs, k) {
+					return
+				}
+			case k.x.cancelOK:
+				rc.Probe("execution_cancelled")
+			case k.x.cancelDone:
+				rc.Probe("cancel_refused_execution_already_over")
+				if !wellFormed(rc, specs, k) {
+					return
+				}
+			}
+		}
 	case "C15":
 		if !conc.out.deadlock {
 			checkAccounting(rc, w, specs, conc, false)
@@ -492,6 +527,17 @@ func hasFatal(specs []*txSpec) (bool, *txSpec) {
 	return false, nil
 }
 
+// rejectedByValidation: executed as an importer, the block was refused by the transition's own
+// pre-validation of its transactions (the generated blocks contain transfers the sender cannot pay for,
+// which a proposer's pool would never have selected). A legitimate way for a block to fail as a whole.
+func rejectedByValidation(rc *kit.RunCtx, r *execResult) bool {
+	if validateOnImport && r.out.finished && r.out.validateErr != nil {
+		rc.Probe("block_rejected_by_validation")
+		return true
+	}
+	return false
+}
+
 func hasFiniteInj(specs []*txSpec) bool {
 	for _, s := range specs {
 		if s.inj != nil && !s.inj.fatal() {
@@ -556,7 +602,7 @@ func checkC10(rc *kit.RunCtx, w *world, specs []*txSpec, conc, seq *execResult) 
 				"%s execution reported success although a transaction handler failed with a %s error (%s)", modeName(r), kind, fs)
 			return
 		}
-		if !fatal && !finite && !r.ok() {
+		if !fatal && !finite && !r.ok() && !rejectedByValidation(rc, r) {
 			rc.Violate("spurious-block-failure", modeName(r), "%s execution failed (%s) although no handler error was injected", modeName(r), errCode(r.out))
 			return
 		}
@@ -612,7 +658,7 @@ func checkC09(rc *kit.RunCtx, w *world, specs []*txSpec, conc, seq *execResult) 
 		return
 	}
 	if !conc.ok() {
-		if !hasFiniteInj(specs) {
+		if !hasFiniteInj(specs) && !(rejectedByValidation(rc, conc) && rejectedByValidation(rc, seq)) {
 			rc.Violate("spurious-block-failure", "both", "both executions failed (%s) although nothing should fail", errCode(conc.out))
 		}
 		return
@@ -709,7 +755,7 @@ func checkAccounting(rc *kit.RunCtx, w *world, specs []*txSpec, r *execResult, f
 				}
 			}
 		}
-		if !hasFiniteInj(specs) {
+		if !hasFiniteInj(specs) && !rejectedByValidation(rc, r) {
 			rc.Violate("spurious-block-failure", mode, "%s execution failed (%s) although nothing should fail", mode, errCode(r.out))
 		}
 		return
